@@ -423,6 +423,12 @@ impl<'a> Model<'a> {
                 }
             }
         }
+        // an accepted request must have been put on the wire by the time the operation returns
+        if let Some(r) = rec.request {
+            if res.is_done_ok() && !self.req_matched[r] && !self.trs[tr].hostile && self.dead[tr].is_none() {
+                self.bad("C09", format!("C09/accepted-request-not-on-wire/{kind:?}"), format!("op {op} ({kind:?}) returned {res:?} but no matching packet was transmitted"));
+            }
+        }
         // a handle must be backed by a flight that was completely transmitted within the op
         if let OpRes::Handle(h) = res {
             while self.handle_flight.len() <= h {
